@@ -97,7 +97,8 @@ def gen_nested(rng):
 
 def gen_macros(rng):
     """directed shape: 1-3 macro definitions (bodies of marks, waits, commands, a block, a watch, calls of other macros,
-    sometimes of themselves), redefinitions, then calls at top level, in blocks and in watch bodies, also of undefined names"""
+    sometimes of themselves), redefinitions, then calls at top level, in blocks and in watch bodies, also of undefined names,
+    with further redefinitions between the calls"""
     out = []
     names = [f"M{k}" for k in range(1, rng.randint(1, 3) + 1)]
 
@@ -148,13 +149,21 @@ def gen_macros(rng):
             out.append((1, f"Call macro: {nm}"))
         else:
             out.append((0, rng.choice(["Mark: Z", "Wait: 1 s"])))
+        if rng.random() < 0.25:                                      # a redefinition between calls, then a call of it
+            nm2 = rng.choice(names)
+            out.append((0, f"Macro: {nm2}"))
+            body(1, nm2)
+            if rng.random() < 0.8:
+                out.append((0, f"Call macro: {nm2}"))
     return out
 
 
-def gen_interp_case(rng):
+def gen_interp_case(rng, shape=None):
     _blk[0] = 0
     MACROS[0] = rng.random() < 0.35
     r0 = rng.random()
+    if shape == "macros":
+        r0 = 0.2
     items = gen_nested(rng) if r0 < 0.12 else gen_macros(rng) if r0 < 0.27 else gen_lines(rng, 0, rng.randint(2, 8))
     for _ in range(rng.choice([0, 0, 1, 2])):
         items.append((0, rng.choice(["", "# c"])))
